@@ -19,7 +19,7 @@ FUZZ = {"thorough": 2500}  # executions per atheris process (16 processes), afte
 RULE = (
     "Hypothesis draws an oil (as C12), salinity 0..25, a gas pseudocritical point, a dtype from "
     "{float64, float32, int64, int32}, a length 0..40 and a layout (contiguous, step 2, step 3, reversed view of a "
-    "larger base array, a pandas Series with non-default row labels, a 2-D grid in C order / Fortran order / as a transposed view, or a 0-d array); elements are fractions of [15, 2.5 p_b] mixed with p_b itself (exact in float64), its "
+    "larger base array, a pandas Series with non-default row labels, a 2-D grid in C order / Fortran order / as a transposed view, a 0-d array, a read-only view, a non-native (big-endian) byte order, or a long array of ~2500 elements); elements are fractions of [15, 2.5 p_b] mixed with p_b itself (exact in float64), its "
     "float neighbours and its integer neighbours. Every array-accepting correlation (oil FVF, solution GOR, "
     "undersaturated compressibility, oil density, the five water correlations, the Fluid methods) is called "
     "once with the array and once per element with a Python float. Non-trivial = length >= 2 with values on "
@@ -49,7 +49,7 @@ def strategy_(draw):
     oil = draw(gens.oil_params())
     dtype = draw(st.sampled_from(DTYPES + ["float64", "int64"]))
     n = draw(st.one_of(st.sampled_from([0, 1, 2]), st.integers(0, 40)))
-    layout = draw(st.sampled_from(["contiguous", "contiguous", "step2", "step3", "reversed", "series", "2d-C", "2d-F", "2d-T", "0d"]))
+    layout = draw(st.sampled_from(["contiguous", "contiguous", "step2", "step3", "reversed", "series", "2d-C", "2d-F", "2d-T", "0d", "readonly", "bigendian", "long"]))
     elems = [
         draw(
             st.one_of(
@@ -110,7 +110,20 @@ def _build_array(case, pb):
             return base, base
         base = arr.reshape(c, r).copy()
         return base, base.T
-    if layout == "contiguous" or n == 0:
+    if layout == "long" and n > 0:
+        # thousands of elements (the generated values repeated): chunked / vectorised paths must agree with short ones
+        base = np.tile(arr, 1 + 2500 // n)
+        return base, base
+    if layout == "bigendian" and n > 0:
+        # non-native byte order (arrays read from a binary file written on another platform)
+        base = arr.astype(arr.dtype.newbyteorder(">"))
+        return base, base
+    if layout == "readonly" and n > 0:
+        base = arr.copy()
+        view = base.view()
+        view.flags.writeable = False
+        return base, view
+    if layout in ("contiguous", "long", "bigendian", "readonly") or n == 0:
         base = arr.copy()
         view = base
     elif layout == "reversed":
@@ -201,7 +214,10 @@ def check_case(case) -> Result:
             base[...] = np.frombuffer(snapshot, dtype=base.dtype).reshape(base.shape)
         if nd:
             res.counts["nd_input_accepted"] = res.counts.get("nd_input_accepted", 0) + 1
-        for k in np.ndindex(arr.shape):
+        idxs = list(np.ndindex(arr.shape))
+        if len(idxs) > 60:  # long arrays: the first, the last and every 41st element
+            idxs = idxs[:20] + idxs[20:-20:41] + idxs[-20:]
+        for k in idxs:
             pk = float(arr[k])
             want = float(lib(f"{name} scalar", f_sc, pk))
             got = float(out[k])
